@@ -71,6 +71,8 @@ pub trait JitterOps {
     fn pool(&self) -> u64;
     fn cursor_pos(&self) -> usize;
     fn seek(&self, pos: usize);
+    /// the timer's read number `after` from now (0 = the next one) panics instead of returning
+    fn arm_fault(&self, after: usize);
 }
 
 /// parse "index: N" / "half_used: b" out of BlockRng's Debug text; None if absent
@@ -559,6 +561,9 @@ impl<F: Fn() -> u64 + Send + Sync + Clone + 'static> JitterOps for DJitter<F> {
     }
     fn seek(&self, pos: usize) {
         self.cur.pos.store(pos, Ordering::SeqCst)
+    }
+    fn arm_fault(&self, after: usize) {
+        self.cur.fault_at.store(self.cur.pos.load(Ordering::SeqCst) + after, Ordering::SeqCst)
     }
 }
 
